@@ -285,7 +285,26 @@ pub fn gen_mhist(rng: &mut Rng, with_rewrites: bool) -> MHist {
             }
         }
     }
-    MHist { terms: h.terms, ops, rules }
+    let mut terms = h.terms;
+    // late-introduced names under binders: a name that is parsed for the first time in the middle of the history, free under a
+    // binder whose private slot is refreshed right afterwards (hygiene of freshly parsed names, incl. names that look like fresh slots)
+    if rng.chance(1, 2) {
+        let late: Name = 10 + rng.below(5) as Name;
+        let b: Name = BINDER_BASE + 40;
+        let fam = vec![
+            Tm::leaf("var", vec![rng.below(2) as Name]),
+            Tm::node("lam", vec![], vec![(vec![b], Tm::leaf("var", vec![late]))]),
+            Tm::node("lam", vec![], vec![(vec![b], Tm::leaf("var", vec![b]))]),
+            Tm::node("lam", vec![], vec![(vec![b], Tm::leaf("f", vec![b, late + 1]))]),
+        ];
+        let base = terms.len();
+        let pos = rng.below(ops.len() + 1);
+        for (i, t) in fam.into_iter().enumerate() {
+            terms.push(t);
+            ops.insert((pos + i).min(ops.len()), MOp::Add(base + i));
+        }
+    }
+    MHist { terms, ops, rules }
 }
 
 fn shrink_mhist(h: &MHist, still: &dyn Fn(&MHist) -> bool) -> MHist {
